@@ -13,10 +13,39 @@ WRAPPERS = ('_AudioReadingProxy', '_Recorder', '_Limiter', '_FixedSizeAudioReade
 
 def check(repo, rep):
     cx = Ctx(repo)
+    rep.cx = cx
     mod = 'util'
     W = lambda n: cx.where(mod, n)
     rc = cx.cls(mod, '_Recorder')
     defs = cx.field_defs(mod, '_Recorder')
+    # ---------------------------------------------------------------- 0. the recorder's typestate on a finite abstract machine
+    # (representation-independent: whatever fields / flags / method pointers the class uses; see sa/typestate.py)
+    from ..typestate import Machine
+    tm = Machine(cx, mod, '_Recorder')
+    tm.explore()
+    machine_decided = not tm.undecided
+    CLAUSES = ['data before the first rewind raises an error instead of returning partial data',
+               'after a rewind, data is exactly what was read before the first rewind',
+               'read() reads the wrapped source exactly once',
+               'read() hands out the wrapped source\'s block unchanged',
+               'before the first rewind, blocks come from the original source',
+               'every block handed out while recording is recorded exactly once, end of stream is not',
+               'after a rewind, reads replay the recorded data',
+               'after a rewind the replay source is open and at its start',
+               'a recording reader can be rewound']
+    seen_cl = set()
+    for clause, trace, msg in tm.violations:
+        if clause in seen_cl:
+            continue
+        seen_cl.add(clause)
+        rep.ob('recorder typestate: %s' % clause, False, W(rc), '_Recorder:typestate:%s' % clause[:40], 'after the operations [%s]: %s' % (trace, msg))
+    if machine_decided:
+        for clause in CLAUSES:
+            if clause not in seen_cl:
+                rep.ob('recorder typestate: %s' % clause, True, W(rc), sample=dict(clause=clause, abstract_states=tm.states_seen))
+    else:
+        rep.info.append('recorder typestate machine undecided: %s' % tm.undecided[0][:200])
+    rep.extra['recorder_typestate'] = dict(abstract_states=tm.states_seen, decided=machine_decided, undecided=tm.undecided[:3])
     # ---------------------------------------------------------------- 1. read-and-cache
     cache_fields = set()
     caching = None
@@ -29,7 +58,8 @@ def check(repo, rep):
                     cache_fields.add(e[1][1][1][2])
                     caching = fn
     if caching is None or len(cache_fields) != 1:
-        rep.unknown('_Recorder: caching read method / cache field not identified (%s)' % sorted(cache_fields))
+        if not machine_decided:
+            rep.unknown('_Recorder: caching read method / cache field not identified (%s) and the typestate machine is undecided (%s)' % (sorted(cache_fields), tm.undecided[0][:120]))
         return
     cache = sorted(cache_fields)[0]
     ncache = 0
@@ -72,8 +102,8 @@ def check(repo, rep):
     rep.ob('rewind freezes the recording as b"".join(cache) (blocks in read order)', len(datafields) == 1, W(wfn), '_Recorder.rewind:data', 'fields assigned b"".join(cache): %s' % datafields)
     if len(flags) == 1:
         rep.ob('a first-rewind flag exists (False at construction, True after the first rewind)', True, W(wfn), '_Recorder.rewind:flag', 'candidates %s' % flags)
-    else:
-        rep.unknown('_Recorder.rewind: how the recorder remembers that it was rewound (a boolean field False at construction, True after the first rewind) was not recognised: candidates %s' % flags)
+    elif not machine_decided:
+        rep.unknown('_Recorder.rewind: how the recorder remembers that it was rewound (a boolean field False at construction, True after the first rewind) was not recognised: candidates %s; the typestate machine is undecided too (%s)' % (flags, tm.undecided[0][:120]))
     nfirst = nlater = 0
     if len(flags) == 1 and len(datafields) == 1:
         flag, dfield = flags[0], datafields[0]
@@ -105,7 +135,8 @@ def check(repo, rep):
                     idx_open = [i for i, e in enumerate(l.effects) if e[0] == 'call' and e[1][0] == 'call' and e[1][1][0] == 'attr' and e[1][1][2] == 'open']
                     rep.ob('the replay source is opened (after it replaced the original)', bool(idx_open) and bool(idx_new) and idx_open[-1] > idx_new[0], W(wfn), '_Recorder.rewind[first]:open')
                 rep.ob('the first-rewind flag is set', flag in stores and stores[flag][2] == ('c', True), W(wfn), '_Recorder.rewind[first]:flag-set')
-    rep.floor('_Recorder.rewind first/later paths', min(nfirst, nlater), 1)
+    if not (machine_decided and len(flags) != 1):
+        rep.floor('_Recorder.rewind first/later paths', min(nfirst, nlater), 1)
     # ---------------------------------------------------------------- 3. data before the first rewind
     g = None
     for n in rc.body:
